@@ -9,14 +9,15 @@ NAMES = ["group_by", "group_by_until", "partition"]
 
 def run(chk):
     chk.build_and_prove()
-    win_table.run_ops(chk, "C19", NAMES, ncase=(30 if chk.tier == "quick" else 500))
-    chk.cov["rule"] = ("per operator: seeded parameters (count/skip 1-5 incl. skip>count and skip<count; timespan/"
-                       "timeshift overlapping and gapped; boundary/opening/closing timelines; 12% raising closing "
-                       "mappers) x seeded timelines on a small instant grid (coincidences with timer edges and "
-                       "between sources common; falsy elements; 12% non-conforming tails; 20% outer dispose) x "
-                       "seeded window-subscription policies (immediately / after a delay / never / dispose after n "
-                       "elements / dispose after d ms); non-trivial = distinct (policy, machine, delivered input "
-                       "sequence) with >= 2 window or buffer notifications and the oracle satisfied")
+    win_table.run_ops(chk, "C19", NAMES, ncase=(90 if chk.tier == "quick" else 1500))
+    chk.cov["rule"] = ("per operator: seeded key tables (few keys / many keys / falsy keys None 0 False '' () 0.0; 5% "
+                       "raising), element mappers, duration mappers (12% raising) x seeded timelines (falsy elements, "
+                       "duration observables firing at arbitrary times incl. the same instant as elements, errors while "
+                       "several groups are open, 12% non-conforming tails, 20% outer dispose) x seeded group-subscription "
+                       "policies (immediately / after a delay / never / dispose after n elements / after d ms); partition: "
+                       "seeded predicate tables x subscribe/leave/re-subscribe schedules of the two outputs; non-trivial = "
+                       "distinct (policy, machine, delivered input sequence) with >= 2 group/output notifications and the "
+                       "oracle satisfied")
     chk.cov["operators_modelled"] = NAMES
     return chk.finish(trusted_extra=[
         "window-aware K2 driver harness/k2w.py (hot sources, proxy scheduler, boundary log, window subscription "
